@@ -44,7 +44,7 @@ func (s *Sim) runPoolRace() {
 			if t == nil {
 				continue
 			}
-			ops = append(ops, op{simkit.Pick(c, "race-op", 50, 20, 15, 5, 10), t})
+			ops = append(ops, op{simkit.Pick(c, "race-op", 40, 15, 30, 5, 10), t})
 		}
 		if len(ops) == 0 {
 			continue
@@ -80,7 +80,13 @@ func (s *Sim) runPoolRace() {
 					case 1:
 						n.Pool.CheckMempoolAcceptance(btx)
 					case 2:
-						n.Pool.MaybeAcceptTransaction(btx, true, true)
+						// (the block-disconnect handler re-submits with
+						// isNew=false, rateLimit=false)
+						if o.tx.Hash[0]&1 == 0 {
+							n.Pool.MaybeAcceptTransaction(btx, false, false)
+						} else {
+							n.Pool.MaybeAcceptTransaction(btx, true, true)
+						}
 					case 3:
 						n.Pool.RemoveTransaction(btx, true)
 					case 4:
